@@ -315,6 +315,11 @@ func runC08(c *Ctx) Result {
 			return fail("panic", fmt.Sprintf("client %d: %v", i, clip(fmt.Sprint(p), 300)), true)
 		}
 	}
+	type c08Suspect struct {
+		i, j int
+		ref  c08Res
+	}
+	var suspects []c08Suspect
 	// O1: solo re-execution after the run + encoding/json
 	for i := range calls {
 		for j := range calls[i] {
@@ -332,7 +337,7 @@ func runC08(c *Ctx) Result {
 				if !c08Same(g, ref, false) {
 					// concurrent == solo != encoding/json: the generator left the subset in which
 					// encoding/json is a valid reference (C01/C03 material), not a concurrency matter
-					c.inc("harness_ref_disagrees_with_solo")
+					suspects = append(suspects, c08Suspect{i, j, ref})
 					if noClip {
 						fmt.Fprintf(os.Stderr, "REFDISAGREE %s(T%d %v): text=%s\n  sonic %s\n  json  %s\n", c08KindNames[cl.Kind], cl.T, types[cl.T], cl.Text, g, ref)
 					}
@@ -342,6 +347,27 @@ func runC08(c *Ctx) Result {
 				}
 			}
 			c.inc("calls_checked_vs_solo")
+		}
+	}
+	if len(suspects) > 0 {
+		// The solo call above ran in the same process, i.e. with whatever codecs the concurrent
+		// run left in the caches. Arbitrate with EMPTY program caches: if the call then agrees
+		// with encoding/json, the concurrent run compiled (and cached) a wrong codec.
+		simrt.PoolTape, simrt.OrderTape = nil, nil
+		simrt.ResetPools()
+		jitdec.SimResetCache(4096)
+		optdec.SimResetCache(4096)
+		vars.SimResetCache(4096)
+		for k, s := range suspects {
+			if k >= 4 {
+				break
+			}
+			cl := &calls[s.i][s.j]
+			fresh := c08Exec(types, cl)
+			if c08Same(fresh, s.ref, false) {
+				return fail("wrong-codec-left-in-cache:"+c08KindNames[cl.Kind], fmt.Sprintf("client %d call %d %s(T%d): concurrent run (and every later call) gives %s; with emptied caches %s (= encoding/json)", s.i, s.j, c08KindNames[cl.Kind], cl.T, got[s.i][s.j], fresh), false)
+			}
+			c.inc("harness_ref_disagrees_with_solo")
 		}
 	}
 	return res
